@@ -160,8 +160,8 @@ pub fn run(cases_path: &str, out_path: &str, tier: &str, seed: u64) {
                 let ok = w.is_ok() && same_output(&r.cfg, &keys, &outv.lock().unwrap(), &r.bytes, &r.rb, r.opener, r.sk.as_deref());
                 sink.put(rec("c09.build_sink_sched", cj.clone(), ok, "build_sink_sched", json!({"outcome": w.class(), "detail": w.detail()})));
                 // R1: reader under source schedule x consumer pattern
-                for cons in [0usize, 1, 7, 8192, 9000, 9001] {
-                    if cons == 1 && r.n > 9000 {
+                for cons in [0usize, 1, 7, 8192, 9000, 9001, 9002] {
+                    if (cons == 1 || cons == 9002) && r.n > 9000 {
                         continue;
                     }
                     let rb = guard(|| read_back(&r.cfg, &keys, SchedReader::new(r.bytes.clone(), sched.clone()), cons, r.opener, r.sk.as_deref()));
@@ -329,7 +329,7 @@ pub fn run(cases_path: &str, out_path: &str, tier: &str, seed: u64) {
         let _ = &pcfg;
         let reference = run1(vec![], 0);
         for (si, sched) in [vec![], vec![1usize], vec![511, 3, 8192]].iter().enumerate() {
-            for cons in [0usize, 1, 7, 8192, 9000, 9001] {
+            for cons in [0usize, 1, 7, 8192, 9000, 9001, 9002] {
                 let got = run1(sched.clone(), cons);
                 // the verdict must agree; an erroring read may have released a prefix
                 let same_class = (got.0 == "clean") == (reference.0 == "clean") && !got.0.starts_with("panic");
@@ -367,7 +367,17 @@ pub fn run(cases_path: &str, out_path: &str, tier: &str, seed: u64) {
         };
         // the public base64 layer on its own: the armor body lines only
         let b64_body: Vec<u8> = { let t = String::from_utf8_lossy(&armored).to_string(); t.lines().filter(|l| !l.starts_with('-') && !l.starts_with('=') && !l.is_empty()).collect::<Vec<_>>().join("\n").into_bytes() };
-        for (what, bytes, truth) in [("dearmor", &armored, &lit), ("base64_decoder", &b64_body, &lit), ("message", &lit, &payload), ("armored_message", &armored, &payload)] {
+        // the public stream decryptors on their own (what Message wraps): SEIPDv1 in streaming mode, legacy unprotected CFB, SEIPDv2
+        let big: Vec<u8> = (0..20000u32).map(|i| (i * 13 + 5) as u8).collect();
+        let dkey = [0x42u8; 16];
+        let v1_ct = crate::c12::seipd1_seal(7, 16, &dkey, &[0x11u8; 16], &big).expect("seal")[1..].to_vec();
+        let sed_ct = pgp::crypto::sym::SymmetricKeyAlgorithm::AES128.encrypt(rng(seed ^ 0x5ED), &dkey, &big).expect("encrypt");
+        let v2_body = pgp::packet::SymEncryptedProtectedData::encrypt_seipdv2(rng(seed ^ 0x5EE), pgp::crypto::sym::SymmetricKeyAlgorithm::AES128, pgp::crypto::aead::AeadAlgorithm::Ocb, pgp::crypto::aead::ChunkSize::C64B, &dkey, &big)
+            .and_then(|p| { use pgp::ser::Serialize; p.to_bytes() }).expect("seipd2");
+        let v2_salt: [u8; 32] = v2_body[4..36].try_into().unwrap();
+        let v2_ct = v2_body[36..].to_vec();
+        for (what, bytes, truth) in [("dearmor", &armored, &lit), ("base64_decoder", &b64_body, &lit), ("message", &lit, &payload), ("armored_message", &armored, &payload),
+                                     ("stream_decryptor_v1_streaming", &v1_ct, &big), ("stream_decryptor_unprotected", &sed_ct, &big), ("stream_decryptor_v2", &v2_ct, &big)] {
             for sched in [vec![16usize], vec![48], vec![1000], vec![7, 64]] {
                 let probe = SchedReader::new(bytes.clone(), sched.clone());
                 let log = probe.log.clone();
@@ -382,6 +392,9 @@ pub fn run(cases_path: &str, out_path: &str, tier: &str, seed: u64) {
                             let (out, eof, errs) = match what {
                                 "dearmor" => { let mut d = Dearmor::new(src); retry_read(&mut d, patience) }
                                 "base64_decoder" => { let mut d = pgp::base64::Base64Decoder::new(pgp::base64::Base64Reader::new(src)); retry_read(&mut d, patience) }
+                                "stream_decryptor_v1_streaming" => match pgp::packet::StreamDecryptor::v1(pgp::crypto::sym::SymmetricKeyAlgorithm::AES128, pgp::types::Seipdv1ReadMode::Streaming, &dkey, src) { Ok(mut d) => retry_read(&mut d, patience), Err(_) => return Ok("rejected at open".into()) },
+                                "stream_decryptor_unprotected" => match pgp::crypto::sym::SymmetricKeyAlgorithm::AES128.stream_decryptor_unprotected(&dkey, src) { Ok(mut d) => retry_read(&mut d, patience), Err(_) => return Ok("rejected at open".into()) },
+                                "stream_decryptor_v2" => match pgp::packet::StreamDecryptor::v2(pgp::crypto::sym::SymmetricKeyAlgorithm::AES128, pgp::crypto::aead::AeadAlgorithm::Ocb, pgp::crypto::aead::ChunkSize::C64B, &v2_salt, &dkey, src) { Ok(mut d) => retry_read(&mut d, patience), Err(_) => return Ok("rejected at open".into()) },
                                 "message" => match Message::from_bytes(src) { Ok(mut m) => retry_read(&mut m, patience), Err(_) => return Ok("rejected at open".into()) },
                                 _ => match Message::from_armor(src) { Ok((mut m, _)) => retry_read(&mut m, patience), Err(_) => return Ok("rejected at open".into()) },
                             };
@@ -391,6 +404,78 @@ pub fn run(cases_path: &str, out_path: &str, tier: &str, seed: u64) {
                         });
                         sink.put(rec("c09.retry_after_transient_fault", json!({"reader": what, "sched": sched, "fault_at_call": k, "patience": patience}), r.is_ok(), "retry_after_fault", json!({"outcome": r.class(), "detail": match &r { Out::Ok(s) => s.clone(), o => o.detail() }})));
                     }
+                }
+            }
+        }
+    }
+    // ---- the sink side: a write() that failed consumed nothing (std::io::Write), so a caller that repeats the failed call and carries on must end
+    //      with exactly the fault-free output; writers: the line wrapper on its own and under the base64 encoder (the armor body pipeline)
+    {
+        use aes::cipher::consts::{U10, U64};
+        use pgp::line_writer::{LineBreak, LineWriter};
+        use std::io::Write;
+        let data: Vec<u8> = (0..700u32).map(|i| b'a' + (i % 26) as u8).collect();
+        // write everything in the given pieces, repeating a failed call (up to `patience` times), then finish
+        fn drive<W: Write>(w: &mut W, data: &[u8], pieces: &[usize], patience: usize) -> Result<usize, String> {
+            let (mut off, mut i, mut errs) = (0usize, 0usize, 0usize);
+            while off < data.len() {
+                let n = pieces[i % pieces.len()].min(data.len() - off);
+                i += 1;
+                let mut done = 0;
+                while done < n {
+                    match w.write(&data[off + done..off + n]) {
+                        Ok(0) => return Err("write returned 0".into()),
+                        Ok(k) => done += k,
+                        Err(_) => { errs += 1; if errs > patience { return Err("gave up".into()); } }
+                    }
+                }
+                off += n;
+            }
+            Ok(errs)
+        }
+        for what in ["line_writer_10", "line_writer_64", "base64_over_line_writer_64"] {
+            for pieces in [vec![3usize], vec![7, 1, 30], vec![64], vec![100, 5]] {
+                let run_one = |fault: Option<usize>| -> Result<(Vec<u8>, bool, usize), String> {
+                    let mut sinkw = SchedWriter::new(vec![usize::MAX]);
+                    if let Some(k) = fault { sinkw = sinkw.with_fault(k); }
+                    let (out, faulted, ncalls) = (sinkw.out.clone(), sinkw.faulted.clone(), sinkw.ncalls.clone());
+                    let errs = match what {
+                        "line_writer_10" => { let mut lw = LineWriter::<_, U10>::new(&mut sinkw, LineBreak::Lf); let n = drive(&mut lw, &data, &pieces, 3)?; lw.finish().map_err(|x| x.to_string())?; n }
+                        "line_writer_64" => { let mut lw = LineWriter::<_, U64>::new(&mut sinkw, LineBreak::Crlf); let n = drive(&mut lw, &data, &pieces, 3)?; lw.finish().map_err(|x| x.to_string())?; n }
+                        _ => {
+                            let mut lw = LineWriter::<_, U64>::new(&mut sinkw, LineBreak::Lf);
+                            let n = {
+                                let mut enc = base64::write::EncoderWriter::new(&mut lw, &base64::engine::general_purpose::STANDARD);
+                                let n = drive(&mut enc, &data, &pieces, 3)?;
+                                let mut tries = 0;
+                                loop { match enc.finish() { Ok(_) => break, Err(x) => { tries += 1; if tries > 3 { return Err(x.to_string()); } } } }
+                                n
+                            };
+                            lw.finish().map_err(|x| x.to_string())?;
+                            n
+                        }
+                    };
+                    let _ = errs;
+                    let o = out.lock().unwrap().clone();
+                    let f = *faulted.lock().unwrap();
+                    let c = *ncalls.lock().unwrap();
+                    Ok((o, f, c))
+                };
+                let Ok((reference, _, ncalls)) = run_one(None) else { continue };
+                for k in 0..ncalls {
+                    nontrivial.fetch_add(1, std::sync::atomic::Ordering::Relaxed);
+                    let r = guard(|| -> Result<String, String> {
+                        match run_one(Some(k)) {
+                            Ok((o, faulted, _)) => {
+                                if !faulted { return Ok("fault not reached".into()); }
+                                if o != reference { return Err(format!("a repeated write after a sink error lost or duplicated octets: {} octets instead of {}, first difference at {}", o.len(), reference.len(), o.iter().zip(reference.iter()).position(|(a, b)| a != b).unwrap_or(o.len().min(reference.len())))); }
+                                Ok("same output".into())
+                            }
+                            // the error may also surface for good (finish after a fault): an error is never a wrong clean result
+                            Err(x) => Ok(format!("error surfaced: {x}")),
+                        }
+                    });
+                    sink.put(rec("c09.retry_write_after_sink_fault", json!({"writer": what, "pieces": pieces, "fault_at_call": k}), r.is_ok(), "retry_after_fault", json!({"outcome": r.class(), "detail": match &r { Out::Ok(s) => s.clone(), o => o.detail() }})));
                 }
             }
         }
